@@ -26,6 +26,8 @@ type Program struct {
 	nObj    int
 	pkgTypes []types.Type // all package-level named types T and *T, sorted
 	contCache map[string]string
+	fakeTypes map[string]types.Type // replay: synthetic dynamic types of scripted fakes
+	fakeIface map[int]types.Type    // fake type id -> the interface it fakes
 }
 
 // rootOK returns an SMT predicate body over x (the root type id of an
